@@ -101,17 +101,19 @@ pub fn layer_b_cases(max_cs: u32) -> Vec<CaseB> {
 
 /// The same property at the command line: `kestrel encrypt` then `kestrel decrypt`, data through files or real pipes.
 #[derive(Clone, Debug, Serialize, Deserialize)]
-pub struct CliCase { pub plain: Plain, pub enc_pipe: Option<Vec<usize>>, pub dec_pipe: Option<Vec<usize>>, pub enc_stdout: bool, pub dec_stdout: bool }
+pub struct CliCase { pub plain: Plain, pub enc_pipe: Option<Vec<u16>>, pub dec_pipe: Option<Vec<u16>>, pub enc_stdout: bool, pub dec_stdout: bool }
+/// Cut points given as fractions of the data length -> piece sizes (so small inputs are split as well).
+pub fn pieces(cuts: &[u16], len: usize) -> Vec<usize> { let mut pos: Vec<usize> = cuts.iter().map(|&c| crate::core::pick(c, len + 1)).collect(); pos.sort(); let mut v = Vec::new(); let mut last = 0; for p in pos { if p > last { v.push(p - last); last = p; } } v }
 pub fn check_cli(c: &CliCase) -> CheckResult {
     use crate::cli::{self, In, Sandbox};
     let id = super::c13::ids(); let sb = Sandbox::new(); let p = c.plain.bytes();
     sb.write("keys.txt", cli::keyring_text(&[(&id.alice, true), (&id.bob, true)]).as_bytes()); sb.write("p.bin", &p);
     let mut a = vec!["encrypt"]; if c.enc_pipe.is_none() { a.push("p.bin"); } a.extend(["-t", "bob", "-f", "alice", "-k", "keys.txt", "--env-pass"]); if !c.enc_stdout { a.extend(["-o", "c.ktl"]); }
-    let mut cmd = sb.cmd(&a).env("KESTREL_PASSWORD", &id.alice.password); if let Some(sz) = &c.enc_pipe { cmd = cmd.stdin(In::Pipe(p.clone(), sz.clone())); }
+    let mut cmd = sb.cmd(&a).env("KESTREL_PASSWORD", &id.alice.password); if let Some(sz) = &c.enc_pipe { cmd = cmd.stdin(In::Pipe(p.clone(), pieces(sz, p.len()))); }
     let r = cmd.run(); ensure!(r.code == Some(0), "kestrel encrypt failed: {}", r.describe());
     let ct = if c.enc_stdout { r.stdout.clone() } else { sb.read("c.ktl").ok_or("no ciphertext file")? }; sb.write("c2.ktl", &ct);
     let mut a = vec!["decrypt"]; if c.dec_pipe.is_none() { a.push("c2.ktl"); } a.extend(["-t", "bob", "-k", "keys.txt", "--env-pass"]); if !c.dec_stdout { a.extend(["-o", "out.bin"]); }
-    let mut cmd = sb.cmd(&a).env("KESTREL_PASSWORD", &id.bob.password); if let Some(sz) = &c.dec_pipe { cmd = cmd.stdin(In::Pipe(ct.clone(), sz.clone())); }
+    let mut cmd = sb.cmd(&a).env("KESTREL_PASSWORD", &id.bob.password); if let Some(sz) = &c.dec_pipe { cmd = cmd.stdin(In::Pipe(ct.clone(), pieces(sz, ct.len()))); }
     let r = cmd.run(); ensure!(r.code == Some(0), "kestrel decrypt of a file the tool just wrote failed: {} ({} plaintext bytes, ciphertext {} bytes)", r.describe(), p.len(), ct.len());
     let out = if c.dec_stdout { r.stdout.clone() } else { sb.read("out.bin").ok_or("no plaintext file")? };
     ensure!(out == p, "command-line round trip changed the plaintext ({} bytes in, {} out)", p.len(), out.len());
@@ -130,7 +132,7 @@ pub fn run(ctx: &Ctx) {
     ctx.sse_vec("roundtrip_chunks_sse", &format!("all compositions of lengths 0..=3cs+1 into reads<=cs, cs=1..={}, x3 sink schedules x2 AADs", if ctx.quick() { 4 } else { 6 }), cases, check_b);
     ctx.put("sse_space", serde_json::json!(total));
     ctx.shrink_iters.store(20, std::sync::atomic::Ordering::Relaxed);
-    let sizes = || proptest::option::of(proptest::collection::vec(prop_oneof![1usize..50, 1usize..5000, Just(65536usize), Just(65537usize)], 0..8));
+    let sizes = || proptest::option::of(proptest::collection::vec(any::<u16>(), 0..7));
     ctx.pbt("cli_files_and_pipes", ctx.n(64, 1_500), || (prop_oneof![1 => Just(Plain { len: 0, seed: 0 }), 4 => gen::small_plain(2000), 2 => gen::plain_strategy(300_000)], sizes(), sizes(), any::<bool>(), any::<bool>()).prop_map(|(plain, enc_pipe, dec_pipe, enc_stdout, dec_stdout)| CliCase { plain, enc_pipe, dec_pipe, enc_stdout, dec_stdout }), check_cli);
     ctx.put("spec_agreement", serde_json::json!({"agree": SPEC_AGREE.load(Ordering::Relaxed), "disagree": SPEC_DISAGREE.load(Ordering::Relaxed), "note": "informational only; byte conformance is C06's verdict"}));
 }
